@@ -9,6 +9,7 @@ import HidVerif.Hid.Lexer
 import HidVerif.Hid.ParseRender
 import HidVerif.Hid.TypecheckStmt
 import HidVerif.Hid.ExitModes
+import HidVerif.Compiler.Core
 open HidVerif HidVerif.Sphinx
 
 def bytesToLines (b : ByteArray) : List (List Char) := Id.run do
@@ -108,7 +109,41 @@ partial def toCExpr : Hid.Sexp → Except String Hid.CExpr
   | .list [.atom "tobool", e] => do pure (.toBool (← toCExpr e))
   | s => .error s!"bad constant expression {repr s}"
 
+/-- `core` correspondence: is the typed tree a core program, and if so is `Core.coreProg` exactly
+what the Lean assembler makes of the text `hidc` emitted (code array, const section, initial
+state section, entry point)?  The trace field carries the source semantics `Core.runCore`. -/
+def coreCase (c : Case) : String :=
+  let optNat (key : String) (dflt : Nat) : Nat :=
+    (c.opts.findSome? (fun o => if o.startsWith (key ++ "=") then (o.drop (key.length + 1)).toString.toNat? else none)).getD dflt
+  let text := (c.ast.map (fun l => l ++ [' '])).flatten
+  match Hid.Sexp.parse text >>= Hid.toProgram with
+  | .error e => s!"{c.id}\tcore\tasterror:{e.replace "\t" " "}\t0\t0\t0\t"
+  | .ok prog =>
+    match Core.fromAst prog with
+    | none => s!"{c.id}\tcore\tnotcore\t0\t0\t0\t"
+    | some body =>
+      match Asm.load c.asm c.args with
+      | .error e => s!"{c.id}\tcore\tasmerror:{e.replace "\t" " "}\t0\t0\t0\t"
+      | .ok l =>
+        let cf : Core.Config := { w := optNat "w" 2, stackWords := optNat "stackwords" 0, checked := !c.opts.contains "unchecked" }
+        let m := Core.coreProg cf body
+        let i := Core.coreInit cf body
+        let firstDiff : Option Nat := (List.range (max m.code.size l.prog.code.size)).find? (fun k => m.code[k]? != l.prog.code[k]?)
+        let verdict :=
+          if !Core.wfS [] body then "diff:not-well-formed"
+          else if m.w != l.prog.w then "diff:word-size"
+          else if let some k := firstDiff then s!"diff:code@{k}:model={repr (m.code[k]?)}:real={repr (l.prog.code[k]?)}".replace "\n" " "
+          else if m.const.data != l.prog.const.data then "diff:const"
+          else if i.pc != l.init.pc then "diff:entry"
+          else if i.mem.data != l.init.mem.data then s!"diff:state:model={i.mem.data.size}:real={l.init.mem.data.size}"
+          else "ok"
+        let tr := match Core.runCore cf.w c.fuel body with
+          | none => "fuel"
+          | some evs => VM.renderTrace evs.toArray
+        s!"{c.id}\tcore\t{verdict}\t{m.code.size}\t0\t0\t{tr}"
+
 def runCase (c : Case) : String :=
+  if c.opts.contains "core" then coreCase c else
   let vmPart :=
     if c.asm.isEmpty then "" else
     match Asm.load c.asm c.args with
